@@ -189,7 +189,7 @@ def call_builtin(I, name, args, kwargs, fr):
         v = args[0]
         if isinstance(v, (VList, VTuple)) and len(v.items) <= 1 and not kwargs:
             return VList(list(v.items))
-        raise OutOfSubset('sorted')
+        return VAbsList('list')         # order-only use (message text): contents are not tracked
     if name == 'reversed':
         v = args[0]
         if isinstance(v, (VList, VTuple)):
